@@ -134,6 +134,12 @@ impl TypedProgram {
                     if let Literal::NumUnsigned(size, UnsignedNumType::Usize) = literal {
                         const_sizes.insert(identifier, *size as usize);
                     }
+                } else {
+                    // Must be reported before the constants are used below:
+                    errs.push(CompilerError::InvalidLiteralType(
+                        literal.clone(),
+                        ty.clone(),
+                    ));
                 }
             }
         }
@@ -159,7 +165,6 @@ impl TypedProgram {
             }
         }
 
-        let mut errs = vec![];
         for (party, deps) in self.const_deps.iter() {
             for (c, (ty, _)) in deps {
                 let Some(party_deps) = consts.get(party) else {
@@ -169,6 +174,7 @@ impl TypedProgram {
                     continue;
                 };
                 let identifier = format!("{party}::{c}");
+                // (missing or mistyped constants have been reported above)
                 if literal.is_of_type(self, ty) {
                     let bits = literal
                         .as_bits(self, &const_sizes)
@@ -176,17 +182,8 @@ impl TypedProgram {
                         .map(|b| *b as usize)
                         .collect();
                     env.let_in_current_scope(identifier.clone(), bits);
-                } else {
-                    errs.push(CompilerError::InvalidLiteralType(
-                        literal.clone(),
-                        ty.clone(),
-                    ));
                 }
             }
-        }
-        if !errs.is_empty() {
-            errs.sort();
-            return Err(errs);
         }
         let mut input_gates = vec![];
         let mut wire = 2;
